@@ -82,7 +82,9 @@ class C13(PropBase):
             "synchronous one and threads[] must be in thread-list order; frames inside 2..6 overlapping unloaded modules. Q cases: the registers of an arm64 "
             "CFI caller frame against C13.Cfi.a64_walk; A cases: adaptive walks on one real Symbolizer polled in an explicit schedule against C13.Adaptive.arun; P cases: process_minidump on "
             "decision-tree dumps against the same model. "
-            "R cases: names of the proc_limits array against the model; E: cert_subject per module; L: lsb_release fields, text line, pid, microcode. Non-trivial = at least one thread processed; "
+            "R cases: the entries (name, soft, hard, unit) of the proc_limits array against the model; E: cert_subject per module (certificate names may repeat in the JSON object); "
+            "L: lsb_release fields, text line, pid, microcode; U: frames[0].unloaded_modules (JSON) and the `(unloaded name@off|off)` groups (text) of threads whose instruction pointer "
+            "lies in 0..7 overlapping unloaded modules (names repeated, range ends, a bad size that makes the reader drop the stream) against C13.Unloaded.frame_offsets. Non-trivial = at least one thread processed; "
             "distinct = distinct case lines")
     trusted_base = [
         "Coq 8.16.1 kernel (vm_compute only in witnesses / Examples)",
@@ -98,6 +100,9 @@ class C13(PropBase):
         "C13/Budget.v: the statements of a walk future after walk_stack(..).await run as one atomic step at completion (no await among them: pinned by "
         "walk_future_steps); C13/Cfi.v: walk_with_stack_cfi as insert-overwrite map -> arbitrary iteration -> sort by name -> fold of an arbitrary per-rule "
         "state transformer; the arm64 instance (memoize table, callee-saved list regenerated from the source) is correspondence-checked (Q cases)",
+        "C13/Unloaded.v: BTreeMap<String, BTreeSet<u64>> as a list kept strictly ascending by name with strictly ascending offset lists (entry().or_insert_with().insert() = "
+        "map_upsert; iteration = reading the list: trusted fact about std's BTree containers), MinidumpUnloadedModuleList::read as all-or-nothing, modules_at_address as a filter "
+        "visited in an arbitrary order; serde's HashMap visitor for a JSON object with repeated member names as insert-or-replace (hm_insert); both correspondence-checked (U, E cases)",
         "extraction ExtrOcamlBasic only; ocaml/c13/main.ml; harness/src/bin/c13.rs + harness/src/dumpspec.rs",
         "the direct oracle is testing: it shows byte-identical output on the schedules / hash seeds it ran, nothing more",
     ]
@@ -141,10 +146,19 @@ class C13(PropBase):
                 "only its own async fns and the three SymbolProvider methods); the per-thread part of into_process_state as ONE system (adaptive walks + the post-walk "
                 "step run in the poll in which the walk finishes + results by index): c13_process_schedule_independent, c13_process_determined, "
                 "c13_process_budget_refuted; c13_adaptive_modules_json_determined; MultiSymbolProvider::stats merge (c13_multi_provider_stats_order_independent). "
-                "Compared with the real code on generated cases: A (adaptive walks on one real Symbolizer under explicit poll schedules: results, answer logs, "
+                "Second pass of round 5: the per-frame map of overlapping UNLOADED modules (BTreeMap<String, BTreeSet<u64>> built after walk_stack, printed by print_json and print) is the same "
+                "for every order in which the overlapping modules are visited, in both build profiles, the offset subtraction never traps (c13_unloaded_offsets_order_independent), and it is "
+                "determined by the set of (name, offset) pairs: names and offsets strictly ascending, membership characterised (c13_unloaded_offsets_determined); with hash containers in their "
+                "place the printers depend on the iteration order (c13_unloaded_hash_containers_refuted); a BTreeSet of any strictly totally ordered key iterates as the ascending list of its "
+                "members whatever the insertion order (c13_ordered_set_order_independent / _determined: the register names of check_for_bitflips); the evil-json certificate map from the "
+                "MEMBERS of the JSON object incl. repeated names (c13_cert_pipeline_order_independent, no NoDup hypothesis) and its closed form: the greatest certificate name that lists the "
+                "module (c13_cert_greatest_wins); the proc_limits entries with soft / hard / unit, any formatter (c13_limits_entries_order_independent); every iteration over a BTreeMap / "
+                "BTreeSet and every field of such a type is an enumerated, classified site (c13_ordered_sites_modelled); the site scan now reads breakpad-symbols/src/http.rs and "
+                "minidump-unwind/src/symbols/debuginfo.rs (feature-gated: four more cells, classified SupplierSide / FeatureGatedProvider, no hash iteration, no combinator). "
+                "Compared with the real code on generated cases: U (unloaded-module map, JSON and text), A (adaptive walks on one real Symbolizer under explicit poll schedules: results, answer logs, "
                 "supplier call order, stats, counters), P (the real processor on synthetic amd64 dumps whose threads ARE decision trees — CFI cell when the module's "
                 "symbols load, frame-pointer cell otherwise — against the adaptive model under round-robin polling: per-thread module sequence, supplier call "
-                "order, stats, counters), Q (arm64 / arm CFI caller registers), R / E / L as before. Everything beyond these cores is checked by a direct oracle only: the same input processed "
+                "order, stats, counters), Q (arm64 / arm CFI caller registers), R (now name, soft, hard, unit) / E (now with repeated certificate names) / L. Everything beyond these cores is checked by a direct oracle only: the same input processed "
                 ">= 13 times in-process (fresh hash seeds; first synchronously, then under three executors with rotated supplier delays / per-module "
                 "suspension counts) must give byte-identical JSON and text with threads[] in thread-list order.",
         "note": "Trusted: Coq kernel; hand-written models (limits renderer correspondence-checked here, Symbolizer model by C12); the oracle is search, not proof. "
